@@ -7733,8 +7733,21 @@ static hawk_val_t* eval_indexed (hawk_rtx_t* rtx, hawk_nde_var_t* var)
 	{
 		hawk_map_pair_t* pair;
 		pair = hawk_map_search(map, str, len);
+		if (!pair)
+		{
+			/* a reference to a nonexistent element creates the element
+			 * with an uninitialized value as in awk.
+			 *   BEGIN { if (x["a"] == "") n++; print ("a" in x), length(x); }
+			 * prints 1 1 */
+			pair = hawk_map_upsert(map, str, len, hawk_val_nil, 0);
+			if (HAWK_UNLIKELY(!pair))
+			{
+				ADJERR_LOC (rtx, &var->loc);
+				goto oops;
+			}
+		}
 		if (str && str != idxbuf) hawk_rtx_freemem (rtx, str);
-		return pair? (hawk_val_t*)HAWK_MAP_VPTR(pair): hawk_val_nil;
+		return (hawk_val_t*)HAWK_MAP_VPTR(pair);
 	}
 	else
 	{
